@@ -182,6 +182,11 @@ def parse_file(path):
         return ast.parse(f.read())
 
 
+# numba.vectorize lifts a scalar function elementwise over arrays (its fixed-width integer arithmetic is
+# exercised by the correspondence checks, not by the translation)
+PLAIN_DECORATORS = ('staticmethod', 'classmethod', 'property', 'numba.vectorize')
+
+
 def find_fn(tree, name, cls=None):
     body = tree.body
     if cls is not None:
@@ -191,10 +196,17 @@ def find_fn(tree, name, cls=None):
                 break
         else:
             raise TranslateError('class %s not found' % cls)
-    for n in body:
-        if isinstance(n, ast.FunctionDef) and n.name == name:
-            return n
-    raise TranslateError('function %s not found' % name)
+    found = [n for n in body if isinstance(n, ast.FunctionDef) and n.name == name]
+    if not found:
+        raise TranslateError('function %s not found' % name)
+    if len(found) > 1:
+        raise TranslateError('function %s defined %d times (the last definition wins at run time)' % (name, len(found)))
+    for d in found[0].decorator_list:
+        # a decorator may change what a call of the function computes; only the ones that do not are accepted
+        if ast.unparse(d) not in PLAIN_DECORATORS:
+            raise TranslateError('function %s is wrapped by decorator @%s, which the translator does not model'
+                                 % (name, ast.unparse(d)))
+    return found[0]
 
 
 def find_assign(tree, name):
